@@ -27,7 +27,7 @@ def model_cfg(ver, tier, wd, scope="module"):
     mp = 1 if tier == "quick" else 2
     classes, by = '"EXT", "JABS", "JREL", "NAME", "LOCAL", "FREE", "CONST", "NOARG", "RAW"', "{0, 1, 2, 4}"
     if scope in df.SMALL_SCOPES:
-        classes, by, mu, mp = df.SMALL_SCOPES[scope] + (4, 1)
+        classes, by, mu, mp = df.SMALL_SCOPES[scope] + (4, 2 if scope == "wide" else 1)
     fn = wd / f"MC_Decode_rt_{ver}_{scope}.cfg"
     fn.write_text(f"""SPECIFICATION Spec
 CONSTANTS
